@@ -69,13 +69,27 @@ std::string vf_run(const Case &c, vf::Ctx &ctx) {
   }
   std::string file = ga::save(app), header;
   std::vector<std::string> msgs = ga::split_messages(file, header);
-  if (c.drop >= 0 && !msgs.empty()) msgs.erase(msgs.begin() + (c.drop % (int)msgs.size()));
+  // one application instance (one port tree) receives every load of this case, reset to its initial state in between:
+  // what a load leaves behind in the library must not influence the next one
+  ga::App loader(c.spec);
+  // a removed line either defines the file under test (depended-on port absent), or - every other such case - only a
+  // file that the same application loads beforehand
+  const bool warm_up = c.drop >= 0 && !msgs.empty() && !c.shuffle.empty() && c.shuffle[0] % 2 == 1;
+  if (warm_up) {
+    std::vector<std::string> other = msgs;
+    other.erase(other.begin() + (c.drop % (int)other.size()));
+    std::string f = header;
+    for (auto &m : other) f += m + "\n";
+    ga::load(loader, f);
+    ctx.count("class.other_file_loaded_before");
+  } else if (c.drop >= 0 && !msgs.empty()) msgs.erase(msgs.begin() + (c.drop % (int)msgs.size()));
   if (msgs.size() < 2) { ctx.count("files_with_less_than_two_lines"); return ""; }
   std::string D = " | " + c.describe();
   auto build = [&](const std::vector<size_t> &perm) { std::string f = header; for (size_t k : perm) f += msgs[k] + "\n"; return f; };
   std::vector<size_t> canon(msgs.size());
   for (size_t i = 0; i < canon.size(); i++) canon[i] = i;
-  ga::App base(c.spec);
+  ga::App &base = loader;
+  base.reset_all();
   int rv0 = ga::load(base, build(canon));
   // a file that does not load at all in its original order is C12's business (e.g. its listed finding about a
   // char parameter holding 0), not an order dependence: skipped and counted
@@ -93,7 +107,8 @@ std::string vf_run(const Case &c, vf::Ctx &ctx) {
   }
   size_t tried = 0;
   auto try_perm = [&](const std::vector<size_t> &perm) -> std::string {
-    ga::App a(c.spec);
+    ga::App &a = loader;
+    a.reset_all();
     std::string f = build(perm);
     int rv = ga::load(a, f);
     tried++;
@@ -128,7 +143,7 @@ std::string vf_run(const Case &c, vf::Ctx &ctx) {
   }
   ctx.count("permutations_loaded", tried);
   ctx.count("lines." + std::to_string(std::min<size_t>(msgs.size(), 12)));
-  if (c.drop >= 0) ctx.count("class.line_removed");
+  if (c.drop >= 0 && !warm_up) ctx.count("class.line_removed");
   if (has_edge) { ctx.count("class.has_dependency_edge"); ctx.nontriv(vf::fnv(c.describe())); }
   return "";
 }
